@@ -685,7 +685,7 @@ def run_unionall(ctx):
                 res.bad(key, "%s accepts a union type as soon as ONE of its members passes (`any` over the members): a value of another "
                              "member reaches code the check was meant to exclude (e.g. a `match` on int|string|float with arms for int and "
                              "string only is accepted and panics on a float)" % b.id, b.where(c.line))
-    res.floor(n, 6, "universal checks over the members of a union")
+    res.floor(n, 3, "universal checks over the members of a union")
     return res
 
 
